@@ -167,7 +167,7 @@ package vm
 // state left behind by an earlier block can leak into its result
 //@   callpremust (*vm.VM).executeRaw fresh(arg0) && len(arg0.stack) == 0 && len(arg0.iterators) == 0
 //@ func NewVM
-//@   ensures result != nil && fresh(result) && len(result.stack) == 0 && result.iterators != nil && fresh(result.iterators) && len(result.iterators) == 0 && result.maxSteps == 0
+//@   ensures result != nil && fresh(result) && len(result.stack) == 0 && result.iterators != nil && fresh(result.iterators) && len(result.iterators) == 0 && result.maxSteps == 0 && result.locals != nil && fresh(result.locals) && allocated(result.locals)
 
 // ---- operators (C02, C04): the VM against the language oracle (contracts/lang.spec), the same one the
 // ---- interpreter's operators are verified against (pkg/interpreter/contracts_verif.go)
